@@ -3,7 +3,6 @@ package config
 import (
 	"fmt"
 
-	"gopkg.in/robfig/cron.v2"
 	metav1 "k8s.io/apimachinery/pkg/apis/meta/v1"
 
 	htypes "github.com/flant/shell-operator/pkg/hook/types"
@@ -130,7 +129,7 @@ func (cv0 *HookConfigV0) ConvertAndCheck(c *HookConfig) error {
 }
 
 func (cv0 *HookConfigV0) CheckSchedule(schV0 ScheduleConfigV0) error {
-	_, err := cron.Parse(schV0.Crontab)
+	err := checkCrontab(schV0.Crontab)
 	if err != nil {
 		return fmt.Errorf("crontab is invalid: %v", err)
 	}
